@@ -315,6 +315,8 @@ func (e *plExec) Do(line string) string {
 	switch cmd {
 	case "probe":
 		return e.probe(a[0])
+	case "busprobe":
+		return e.busProbe(atoi(a[0]), line)
 	case "dump":
 		m := e.msgs[atoi(a[0])]
 		if m == nil {
@@ -1144,6 +1146,9 @@ func (g *plGen) observe() {
 			}
 			g.emit(b.String())
 		}
+	}
+	if len(g.msgs) > 0 && r.Intn(4) == 0 {
+		g.emit(sprintf("oracle pl busprobe %d", g.msgs[r.Intn(len(g.msgs))]))
 	}
 	if len(g.enums) > 0 && r.Intn(2) == 0 {
 		g.emit(sprintf("pl edump %d", g.enums[r.Intn(len(g.enums))]))
